@@ -3814,7 +3814,7 @@ def polar(a, cutoff=1.0e-16, left=False, inner_labels=[None, None]):
     else:
         # a = pu
         labels = u.get_leg_labels()[0], u.conj().get_leg_labels()[0]
-        p = tensordot(W.iscale_axis(s), W.conj().itranspose(), axes=([1, 0])).iset_leg_labels(labels)
+        p = tensordot(W.scale_axis(s), W.conj().itranspose(), axes=([1, 0])).iset_leg_labels(labels)
         # p = (w * s).dot(w.T.conj())
     return u, p, s
 
